@@ -289,7 +289,7 @@ func (e *env) closeBuilder(b table.Builder, fno int, res *built, expectOK bool) 
 		}
 	case err != nil:
 		c.Op(op, "err other")
-		c.Fail("close-error", err.Error())
+		c.Fail("close-error", strings.ReplaceAll(err.Error(), e.dir, "<dir>"))
 	default:
 		data, rerr := os.ReadFile(e.path(fno))
 		if rerr != nil || len(data) < 17 {
@@ -330,7 +330,7 @@ func (e *env) openTable(t *built) table.Reader {
 	if err != nil || r == nil {
 		c.Op(op, "err")
 		if t.closed {
-			c.Fail("open-fails", fmt.Sprintf("a file written by the builder is rejected by the reader: %v", err))
+			c.Fail("open-fails", "a file written by the builder is rejected by the reader: "+strings.ReplaceAll(fmt.Sprint(err), e.dir, "<dir>"))
 		}
 		return nil
 	}
@@ -607,6 +607,36 @@ func minU32(a, b uint32) uint32 {
 func (e *env) caseTable() {
 	shape, keys := e.keySet()
 	prof, size := e.sizeProfile(len(keys))
+	if e.r.Intn(100) < 8 && len(keys) >= 2 {
+		// the largest offset lands exactly on / next to a width threshold of Uint32MinWidth
+		prof = "width-threshold"
+		n := 2 + e.r.Intn(2)
+		if n > len(keys) {
+			n = len(keys)
+		}
+		keys = keys[:n]
+		target := []int{256, 65536}[e.r.Intn(2)] + e.r.Intn(3) - 1
+		sizes := []int{target, e.r.Intn(5)}
+		if n == 3 {
+			a := e.r.Intn(target + 1)
+			sizes = []int{a, target - a, e.r.Intn(5)}
+		}
+		i := 0
+		size = func() int { v := sizes[i%len(sizes)]; i++; return v }
+		e.c.Branch("keys-" + shape)
+		e.c.Branch("values-" + prof)
+		var items []item
+		for _, k := range keys {
+			items = append(items, item{k: k, chunks: []val{mkVal(e.r, size())}})
+		}
+		if t := e.buildTable(1, items); t != nil && t.closed {
+			if r := e.openTable(t); r != nil {
+				e.c.NonTrivial()
+				e.probeTable(t, r)
+			}
+		}
+		return
+	}
 	e.c.Branch("keys-" + shape)
 	e.c.Branch("values-" + prof)
 	items := e.mkItems(keys, size, len(keys) <= 1000)
@@ -961,7 +991,7 @@ func (e *env) caseVersion() {
 		}
 		if err != nil {
 			c.Op(op, "err")
-			c.Fail("load-error", err.Error())
+			c.Fail("load-error", strings.ReplaceAll(err.Error(), e.dir, "<dir>"))
 			continue
 		}
 		ss := make([]string, len(vals))
